@@ -53,6 +53,7 @@ Definition main_ok (n : nat) (wf : nat -> word) (l : pc) : Prop :=
   | WStoreC t orig ret cur => t < n /\ wf t = orig /\ st orig = st_active /\ ret_ok ret /\ cur = orig
   | WBoost t | WBoostC t _ => t < n /\ (st (wf t) = st_pending_boost \/ st (wf t) = st_pending)
   | WRequeue t => t < n /\ st (wf t) = st_pending
+  | WRelease t => t < n
   | WTop | XRun _ _ => True
   end.
 Definition sub_ok (n : nat) (wf : nat -> word) (s : sub) : Prop :=
@@ -238,6 +239,41 @@ Section Effects.
       + rewrite Hw by assumption. apply (i_dom _ _ _ _ HI). lia.
   Qed.
 
+  (* E3': a terminated thread object x is rebound (word (pending,0)) and pushed *)
+  Lemma inv_rebind wf' a l' x :
+    x < n -> st (wf x) = st_terminated ->
+    wf' x = w_init -> (forall t, t <> x -> wf' t = wf t) ->
+    (forall t, holds l' t <-> holds (ls a) t) ->
+    pc_ok n wf' l' ->
+    SInvV n (x :: pd) wf' (upd ls a l').
+  Proof.
+    intros Hx Hterm Hn Hw Hh Hp.
+    assert (Hold : forall b t, holds (upd ls a l' b) t <-> holds (ls b) t).
+    { intros b t. upd_cases b a; [apply Hh | tauto]. }
+    assert (Hnl : ~ live_st (st (wf x))) by (rewrite Hterm; intros [|[|]]; discriminate).
+    assert (Hnone : forall b, ~ holds (ls b) x).
+    { intros b H. apply Hnl. now apply (holds_live b x). }
+    assert (Hnin : ~ In x pd).
+    { intros H. apply (i_queue _ _ _ _ HI) in H. destruct H as [_ H]. congruence. }
+    constructor.
+    - intros t [<-|Ht]; [rewrite Hn; cbn; auto|].
+      destruct (i_queue _ _ _ _ HI t Ht) as [H1 H2].
+      rewrite Hw by (intros ->; contradiction). auto.
+    - constructor; [exact Hnin | apply (i_nodup _ _ _ _ HI)].
+    - intros b. upd_cases b a; [exact Hp|].
+      eapply pc_ok_other; [exact Hw | apply Hnone | apply (i_pc _ _ _ _ HI)].
+    - intros b c t H1 H2. apply Hold in H1. apply Hold in H2. eapply (i_uniq _ _ _ _ HI); eauto.
+    - intros b t H1 [<-|Ht]; apply Hold in H1; [eapply Hnone; eauto|].
+      eapply (i_excl _ _ _ _ HI); eauto.
+    - intros t Ht Hl. destruct (Nat.eq_dec t x) as [->|Hne]; [left; left; reflexivity|].
+      rewrite Hw in Hl by assumption.
+      destruct (i_exist _ _ _ _ HI t Ht Hl) as [H|[b H]]; [left; right; auto|].
+      right. exists b. now apply Hold.
+    - intros t Ht. destruct (Nat.eq_dec t x) as [->|Hne].
+      + rewrite Hn. left. left. reflexivity.
+      + rewrite Hw by assumption. now apply (i_dom _ _ _ _ HI).
+  Qed.
+
   (* E4: the holder of t changes t's word and keeps (or drops, when the new state is not live)
      its handle; nothing else changes *)
   Lemma inv_word wf' a l' t :
@@ -390,10 +426,35 @@ Lemma tw_of_set_word_same g t w' : tw_of (set_word g t w') t = w'.
 Proof. unfold set_word. now rewrite tw_of_set_task_same. Qed.
 Lemma tw_of_set_word_other g t w' y : y <> t -> tw_of (set_word g t w') y = tw_of g y.
 Proof. intros H. unfold set_word. now rewrite tw_of_set_task_other. Qed.
-Lemma tw_of_new_task_same g b : tw_of (new_task g b) (ntasks g) = w_init.
+Lemma tw_of_new_task_same g b h : tw_of (new_task g b h) (new_slot g h) = w_init.
 Proof. unfold tw_of, new_task; cbn. now rewrite upd_same. Qed.
-Lemma tw_of_new_task_other g b y : y <> ntasks g -> tw_of (new_task g b) y = tw_of g y.
+Lemma tw_of_new_task_other g b h y : y <> new_slot g h -> tw_of (new_task g b h) y = tw_of g y.
 Proof. intros H. unfold tw_of, new_task; cbn. now rewrite upd_other. Qed.
+Lemma tw_of_set_rc g t c y : tw_of (set_rc g t c) y = tw_of g y.
+Proof. reflexivity. Qed.
+Lemma tw_of_set_sref g t c y : tw_of (set_sref g t c) y = tw_of g y.
+Proof. reflexivity. Qed.
+Lemma tw_of_rc_inc g t y : tw_of (rc_inc g t) y = tw_of g y.
+Proof. reflexivity. Qed.
+Lemma tw_of_self_ref g t y : tw_of (self_ref g t) y = tw_of g y.
+Proof. reflexivity. Qed.
+(* rc_dec touches only rc and term *)
+Lemma rc_dec_view g t :
+  tasks (rc_dec g t) = tasks g /\ ntasks (rc_dec g t) = ntasks g /\ pend (rc_dec g t) = pend g /\
+  staged (rc_dec g t) = staged g /\ log (rc_dec g t) = log g /\ gid (rc_dec g t) = gid g /\
+  ninc (rc_dec g t) = ninc g /\ sref (rc_dec g t) = sref g /\ heap (rc_dec g t) = heap g.
+Proof. unfold rc_dec. destruct (rc g t) as [|[|c]]; cbn; repeat split. Qed.
+Lemma tw_of_rc_dec g t y : tw_of (rc_dec g t) y = tw_of g y.
+Proof. unfold tw_of. destruct (rc_dec_view g t) as (-> & _). reflexivity. Qed.
+Lemma ntasks_rc_dec g t : ntasks (rc_dec g t) = ntasks g.
+Proof. apply rc_dec_view. Qed.
+Lemma pend_rc_dec g t : pend (rc_dec g t) = pend g.
+Proof. apply rc_dec_view. Qed.
+
+(* objects waiting for cleanup or for re-use are terminated (proved in SchedRecycleProofs from
+   the reference counts; here a hypothesis of the step lemmas) *)
+Definition heap_ok (g : G) : Prop :=
+  forall x, In x (heap g) -> x < ntasks g /\ st (tw_of g x) = st_terminated.
 
 (* ------------------------------------------------------------------ holds for concrete pcs *)
 Definition with_sub (l : pc) (s' : sub) : pc :=
@@ -538,28 +599,47 @@ Proof.
   intros HI. apply inv_frame with (wf := tw_of g); auto; [tauto | apply (i_pc _ _ _ _ HI)].
 Qed.
 
-(* spawning from thread a (pc changes from l to l', same handles) *)
-Lemma spawn_inv g ls a l' b now g0 :
-  SInv g ls -> ntasks g0 = ntasks g -> pend g0 = pend g -> (forall t, tw_of g0 t = tw_of g t) ->
-  (forall x, holds l' x <-> holds (ls a) x) ->
-  (forall n' wf', (forall t, t < ntasks g -> wf' t = tw_of g t) -> ntasks g <= n' -> pc_ok n' wf' l') ->
-  SInv (if now : bool then new_task g0 b else stage g0 b) (upd ls a l').
+Lemma new_task_reuse g b h x : nth_error (heap g) h = Some x ->
+  ntasks (new_task g b h) = ntasks g /\ pend (new_task g b h) = x :: pend g /\ new_slot g h = x /\ In x (heap g).
 Proof.
-  intros HI En Ep Et Hh Hok. unfold SInv. destruct now.
-  - change (SInvV (S (ntasks g0)) (ntasks g0 :: pend g0) (tw_of (new_task g0 b)) (upd ls a l')).
-    rewrite En, Ep. apply inv_new with (wf := tw_of g); auto.
-    + rewrite <- En. apply tw_of_new_task_same.
-    + intros t Ht. rewrite tw_of_new_task_other by (rewrite En; exact Ht). apply Et.
-    + apply Hok; [|lia]. intros t Ht. rewrite tw_of_new_task_other by (rewrite En; lia). apply Et.
+  intros E. unfold new_task, new_slot. cbn. rewrite E. repeat split. eapply nth_error_In; eauto.
+Qed.
+Lemma new_task_fresh g b h : nth_error (heap g) h = None ->
+  ntasks (new_task g b h) = S (ntasks g) /\ pend (new_task g b h) = ntasks g :: pend g /\ new_slot g h = ntasks g.
+Proof. intros E. unfold new_task, new_slot. cbn. rewrite E. repeat split. Qed.
+
+(* spawning from thread a (pc changes from l to l', same handles) *)
+Lemma spawn_inv g ls a l' b now g0 h :
+  SInv g ls -> heap_ok g ->
+  ntasks g0 = ntasks g -> pend g0 = pend g -> heap g0 = heap g -> (forall t, tw_of g0 t = tw_of g t) ->
+  (forall x, holds l' x <-> holds (ls a) x) ->
+  (forall n' wf', (forall t, t < ntasks g -> st (tw_of g t) <> st_terminated -> wf' t = tw_of g t) ->
+                  ntasks g <= n' -> pc_ok n' wf' l') ->
+  SInv (if now : bool then new_task g0 b h else stage g0 b) (upd ls a l').
+Proof.
+  intros HI HH En Ep Eh Et Hh Hok. unfold SInv. destruct now.
+  - destruct (nth_error (heap g0) h) as [x|] eqn:Enth.
+    + destruct (new_task_reuse g0 b h x Enth) as (E1 & E2 & E3 & E4). rewrite E1, E2, En, Ep.
+      rewrite Eh in E4. destruct (HH x E4) as [Hx Hterm].
+      apply inv_rebind with (wf := tw_of g); auto.
+      * rewrite <- E3. apply tw_of_new_task_same.
+      * intros t Ht. rewrite tw_of_new_task_other by (rewrite E3; exact Ht). apply Et.
+      * apply Hok; [|lia]. intros t Ht Hnt. rewrite tw_of_new_task_other; [apply Et|].
+        rewrite E3. intros ->. contradiction.
+    + destruct (new_task_fresh g0 b h Enth) as (E1 & E2 & E3). rewrite E1, E2, En, Ep.
+      apply inv_new with (wf := tw_of g); auto.
+      * rewrite <- En, <- E3. apply tw_of_new_task_same.
+      * intros t Ht. rewrite tw_of_new_task_other by (rewrite E3, En; exact Ht). apply Et.
+      * apply Hok; [|lia]. intros t Ht _. rewrite tw_of_new_task_other by (rewrite E3, En; lia). apply Et.
   - change (SInvV (ntasks g0) (pend g0) (tw_of g0) (upd ls a l')).
     rewrite En, Ep. apply inv_frame with (wf := tw_of g); auto.
 Qed.
 
 Theorem step_SInv o a g ls :
-  SInv g ls -> SInv (fst (tstep o a g (ls a))) (upd ls a (snd (tstep o a g (ls a)))).
+  SInv g ls -> heap_ok g -> SInv (fst (tstep o a g (ls a))) (upd ls a (snd (tstep o a g (ls a)))).
 Proof.
-  intros HI. assert (Hpc := i_pc _ _ _ _ HI a).
-  destruct (ls a) as [|t|t w0|t orig s|t orig ret|t orig ret cur|t|t prev|t|acts s] eqn:Ha; cbn [tstep].
+  intros HI HH. assert (Hpc := i_pc _ _ _ _ HI a).
+  destruct (ls a) as [|t|t w0|t orig s|t orig ret|t orig ret cur|t|t prev|t|t|acts s] eqn:Ha; cbn [tstep].
   - (* WTop *)
     destruct (ob o).
     + destruct (nth_error (pend g) (oi o)) as [t|] eqn:En; cbn [fst snd].
@@ -567,9 +647,9 @@ Proof.
         now apply inv_pop.
       * rewrite <- Ha. now apply inv_same.
     + destruct (nth_error (staged g) (oi o)) as [b|] eqn:En; cbn [fst snd].
-      * apply (spawn_inv g ls a WTop b true (set_staged g (remove_nth (oi o) (staged g)))); auto;
+      * apply (spawn_inv g ls a WTop b true (set_staged g (remove_nth (oi o) (staged g))) (oh o)); auto;
           try (rewrite Ha; tauto); try (intros; split; exact I).
-      * rewrite <- Ha. now apply inv_same.
+      * destruct (term g) as [|x r]; cbn [fst snd]; rewrite <- Ha; now apply inv_same.
   - (* WGot *)
     cbn [fst snd]. destruct Hpc as [[Ht Hp] _].
     apply inv_frame with (wf := tw_of g); auto.
@@ -579,21 +659,24 @@ Proof.
     destruct Hpc as [(Ht & Hw & Hp) _]. subst w0. rewrite Hp.
     rewrite word_eqb_refl. cbn [fst snd].
     set (nw := {| st := st_active; tag := tag (tw_of g t) + 1 |}).
-    match goal with |- SInv ?gg _ => change (SInvV (ntasks g) (pend g) (tw_of gg) (upd ls a (WRun t nw SNone))) end.
+    match goal with |- SInv ?gg _ => assert (Egg : forall x, tw_of gg x = upd (tw_of g) t nw x /\ ntasks gg = ntasks g /\ pend gg = pend g) end.
+    { intros x. destruct (sref g t); (split; [|split; reflexivity]); rewrite !tw_of_add_log, ?tw_of_set_sref, ?tw_of_set_rc;
+        (destruct (Nat.eq_dec x t) as [->|Hne]; [rewrite upd_same; apply tw_of_set_task_same | rewrite upd_other by assumption; now apply tw_of_set_task_other]). }
+    match goal with |- SInv ?gg _ => unfold SInv; destruct (Egg 0) as (_ & -> & ->) end.
     apply inv_word with (wf := tw_of g) (t := t); auto.
     + rewrite Ha. now left.
-    + intros x Hx. rewrite !tw_of_add_log. now apply tw_of_set_task_other.
+    + intros x Hx. destruct (Egg x) as (-> & _). now apply upd_other.
     + left. split.
-      * rewrite !tw_of_add_log, tw_of_set_task_same. right; right; reflexivity.
+      * destruct (Egg t) as (-> & _). rewrite upd_same. right; right; reflexivity.
       * intros x. rewrite Ha. rewrite !holds_main_only by hmo. tauto.
-    + split; cbn; auto. rewrite !tw_of_add_log, tw_of_set_task_same. auto.
+    + split; cbn; auto. destruct (Egg t) as (-> & _). rewrite upd_same. auto.
   - (* WRun *)
     destruct s as [|u|u|u prev|u].
     2-5: match goal with |- context [sub_step ?gg ?s] =>
            assert (Hs := sub_step_inv gg ls a _ HI Ha I); cbn [sub_of with_sub] in Hs;
            destruct (sub_step gg s) as [g' s']; exact Hs end.
     destruct Hpc as [(Ht & Hw & Hact) _].
-    unfold run_act. destruct (todo (tasks g t)) as [[|ac r]|u prev].
+    unfold run_act. destruct (todo (tasks g t)) as [[|ac r]|u prev|u].
     + (* finished *) cbn [fst snd]. apply inv_frame with (wf := tw_of g); auto.
       * intros x. rewrite Ha. rewrite !holds_main_only by hmo. tauto.
       * split; cbn; auto. unfold ret_ok. tauto.
@@ -615,10 +698,10 @@ Proof.
         -- intros x. rewrite tw_of_set_reg. apply tw_of_set_todo.
         -- intros x. rewrite Ha. tauto.
         -- split; cbn; auto. rewrite tw_of_set_reg, tw_of_set_todo. auto.
-      * apply (spawn_inv g ls a (WRun t orig SNone) (UserBody b) now (set_todo g t (UserBody r))); auto.
+      * apply (spawn_inv g ls a (WRun t orig SNone) (UserBody b) now (set_todo g t (UserBody r)) (oh o)); auto.
         -- intros x. apply tw_of_set_todo.
         -- rewrite Ha. tauto.
-        -- intros n' wf' Hwf Hn. split; cbn; auto. rewrite Hwf by assumption. split; [lia|auto].
+        -- intros n' wf' Hwf Hn. split; cbn; auto. rewrite Hwf by (auto; congruence). split; [lia|auto].
       * unfold SInv.
         change (SInvV (ntasks g) (pend g) (tw_of (set_todo g t (UserBody r))) (upd ls a (WRun t orig (SIssue u)))).
         apply inv_frame with (wf := tw_of g); auto.
@@ -638,6 +721,12 @@ Proof.
         - split; cbn; [rewrite Ew; auto|]. destruct Hs' as [->| ->]; exact I. }
       destruct (sst_beq (st (tw_of g u)) (st prev) && negb (word_eqb (tw_of g u) prev)); cbn [fst snd];
         apply Hh; auto; intros x; rewrite ?tw_of_add_log; apply tw_of_set_todo.
+    + (* helper: the bound id is released *)
+      cbn [fst snd]. unfold SInv. rewrite ntasks_rc_dec, pend_rc_dec.
+      apply inv_frame with (wf := tw_of g); auto.
+      * intros x. rewrite tw_of_rc_dec. apply tw_of_set_todo.
+      * intros x. rewrite Ha. tauto.
+      * split; cbn; auto. rewrite tw_of_rc_dec, tw_of_set_todo. auto.
   - (* WStoreL *)
     cbn [fst snd]. destruct Hpc as [(Ht & Hw & Hact & Hr) _].
     apply inv_frame with (wf := tw_of g); auto.
@@ -650,7 +739,7 @@ Proof.
     set (nw := {| st := ret; tag := tag orig + 1 |}).
     assert (Hgen : forall l', 
       (live_st ret /\ (forall x, holds l' x <-> x = t) /\ pc_ok (ntasks g) (upd (tw_of g) t nw) l') \/
-      ((ret = st_suspended \/ ret = st_terminated) /\ l' = WTop) ->
+      ((ret = st_suspended \/ ret = st_terminated) /\ l' = WRelease t) ->
       forall gg, ntasks gg = ntasks g -> pend gg = pend g -> (forall x, tw_of gg x = upd (tw_of g) t nw x) ->
       SInv gg (upd ls a l')).
     { intros l' Hl' gg En Ep Ew. unfold SInv. rewrite En, Ep.
@@ -663,13 +752,14 @@ Proof.
         + right. split; [exact Hs|]. intros x. rewrite Ha.
           rewrite (holds_main_only (WStoreC t orig ret orig) t) by hmo.
           split; [intros H; hno H | tauto].
-      - destruct Hl' as [(_ & _ & Hp)|(_ & ->)]; [|split; exact I].
+      - destruct Hl' as [(_ & _ & Hp)|(_ & ->)]; [|split; [exact Ht | exact I]].
         eapply pc_ok_ext; [|exact Hp]. intros; apply Ew. }
-    assert (Eview : forall gg, gg = add_log (add_log (set_word g t nw) (EvExit t (pred (ph (tasks g t))) a ret)) (EvWord t SiteStore orig nw) ->
+    assert (Eview : forall gg, gg = (let g0 := add_log (add_log (set_word g t nw) (EvExit (gid g t) (pred (ph (tasks g t))) a ret)) (EvWord (gid g t) SiteStore orig nw) in
+                                     if sst_beq ret st_terminated then g0 else self_ref g0 t) ->
                     ntasks gg = ntasks g /\ pend gg = pend g /\ (forall x, tw_of gg x = upd (tw_of g) t nw x)).
-    { intros gg ->. repeat split. intros x. rewrite !tw_of_add_log.
-      destruct (Nat.eq_dec x t) as [->|Hne]; [rewrite upd_same; apply tw_of_set_word_same|].
-      rewrite upd_other by assumption. now apply tw_of_set_word_other. }
+    { intros gg ->. cbv zeta. destruct (sst_beq ret st_terminated); repeat split; intros x; rewrite ?tw_of_self_ref, !tw_of_add_log.
+      all: destruct (Nat.eq_dec x t) as [->|Hne]; [rewrite upd_same; apply tw_of_set_word_same|];
+        rewrite upd_other by assumption; now apply tw_of_set_word_other. }
     destruct (Eview _ eq_refl) as (En & Ep & Ew).
     destruct Hr as [->|[->|[->| ->]]]; (eapply Hgen; [|exact En|exact Ep|exact Ew]).
     + left. split; [left; reflexivity|]. split.
@@ -709,6 +799,12 @@ Proof.
     + intros x. rewrite Ha. rewrite (holds_main_only (WRequeue t) t) by hmo.
       split; [intros H; hno H | tauto].
     + split; exact I.
+  - (* WRelease *)
+    cbn [fst snd]. unfold SInv. rewrite ntasks_rc_dec, pend_rc_dec.
+    apply inv_frame with (wf := tw_of g); auto.
+    + intros x. apply tw_of_rc_dec.
+    + intros x. rewrite Ha. split; intros H; hno H.
+    + split; exact I.
   - (* XRun *)
     destruct s as [|u|u|u prev|u].
     2-5: match goal with |- context [sub_step ?gg ?s] =>
@@ -718,7 +814,7 @@ Proof.
     { intros r. apply inv_frame with (wf := tw_of g); auto; try (split; exact I).
       intros x. rewrite Ha. split; intros H; hno H. }
     destruct acts as [|[| | | |b now|u] r]; cbn [fst snd]; auto.
-    + apply (spawn_inv g ls a (XRun r SNone) (UserBody b) now g); auto; try (intros; split; exact I).
+    + apply (spawn_inv g ls a (XRun r SNone) (UserBody b) now g (oh o)); auto; try (intros; split; exact I).
       intros x. rewrite Ha. split; intros H; hno H.
     + apply inv_frame with (wf := tw_of g); auto; try (split; exact I).
       intros x. rewrite Ha. split; intros H; hno H.
@@ -739,82 +835,96 @@ Proof.
   - intros t H. lia.
 Qed.
 
-Theorem SInv_reach sched ext :
-  SInv (fst (sched_run sched ext)) (snd (sched_run sched ext)).
-Proof.
-  unfold sched_run. apply (run_inv _ _ _ tstep SInv).
-  - intros o t g ls H. now apply step_SInv.
-  - apply SInv_init.
-Qed.
-
 (* ------------------------------------------------------------------ C01: single runner, handles *)
 Lemma running_holds l t : running l t -> holds l t.
 Proof. destruct l; cbn; try tauto; intros ->; left; reflexivity. Qed.
 
-Theorem sched_single_runner sched ext a b t :
-  let c := sched_run sched ext in
-  running (snd c a) t -> running (snd c b) t -> a = b.
-Proof.
-  intros c Ha Hb. eapply (i_uniq _ _ _ _ (SInv_reach sched ext)); apply running_holds; eauto.
-Qed.
-
-(* the failure branches of the two CAS of switch_status are dead code in this fragment *)
-Theorem sched_cas_never_fails sched ext a :
-  let c := sched_run sched ext in
-  (forall t w0, snd c a = WLoaded t w0 -> tw_of (fst c) t = w0 /\ st w0 = st_pending) /\
-  (forall t orig ret cur, snd c a = WStoreC t orig ret cur -> tw_of (fst c) t = orig /\ cur = orig).
-Proof.
-  intros c. assert (H := i_pc _ _ _ _ (SInv_reach sched ext) a). fold c in H. split.
-  - intros t w0 E. rewrite E in H. destruct H as [H _]. cbn in H. tauto.
-  - intros t orig ret cur E. rewrite E in H. destruct H as [H _]. cbn in H. tauto.
-Qed.
-
-Theorem sched_handles sched ext t :
-  let c := sched_run sched ext in
-  t < ntasks (fst c) ->
-  (* a pending / pending_boost / active task is referenced by exactly one handle *)
-  (live_st (st (tw_of (fst c) t)) ->
-     (In t (pend (fst c)) \/ exists a, holds (snd c a) t) /\
-     NoDup (pend (fst c)) /\
-     (forall a, holds (snd c a) t -> ~ In t (pend (fst c))) /\
-     (forall a b, holds (snd c a) t -> holds (snd c b) t -> a = b)) /\
-  (* a suspended or terminated task by none *)
-  (st (tw_of (fst c) t) = st_suspended \/ st (tw_of (fst c) t) = st_terminated ->
-     ~ In t (pend (fst c)) /\ forall a, ~ holds (snd c a) t) /\
-  (* and there is no other state *)
-  (live_st (st (tw_of (fst c) t)) \/ st (tw_of (fst c) t) = st_suspended \/ st (tw_of (fst c) t) = st_terminated).
-Proof.
-  intros c Ht. assert (HI := SInv_reach sched ext). fold c in HI. unfold SInv in HI. repeat split.
-  - now apply (i_exist _ _ _ _ HI).
-  - apply (i_nodup _ _ _ _ HI).
-  - intros a. apply (i_excl _ _ _ _ HI).
-  - intros a b. apply (i_uniq _ _ _ _ HI).
-  - intros Hin. apply (i_queue _ _ _ _ HI) in Hin. destruct Hin as [_ Hp]. destruct H as [H|H]; congruence.
-  - intros a Ha. apply (holds_live _ _ _ _ HI) in Ha. destruct Ha as [_ [Hl|[Hl|Hl]]], H as [H|H]; congruence.
-  - now apply (i_dom _ _ _ _ HI).
-Qed.
-
 (* ------------------------------------------------------------------ C01: entered once *)
+(* per thread object x: the phase events of the incarnation it is bound to, its phase counter,
+   and whether it is active *)
 Definition lview (g : G) (x : nat) : list pev * nat * bool :=
-  (phases_of x (log g), ph (tasks g x), sst_beq (st (tw_of g x)) st_active).
+  (phases_of (gid g x) (log g), ph (tasks g x), sst_beq (st (tw_of g x)) st_active).
 
 Definition log_ok (v : list pev * nat * bool) : Prop :=
   let '(p, k, act) := v in p = rev (alt (2 * k - (if act then 1 else 0))) /\ (act = true -> 1 <= k).
 
-Definition LogInv (g : G) : Prop :=
-  (forall x, log_ok (lview g x)) /\ (forall x, ntasks g <= x -> lview g x = ([], 0, false)).
+Record LogInv (g : G) : Prop := {
+  l_ok : forall x, x < ntasks g -> log_ok (lview g x);
+  l_fresh : forall i, ninc g <= i -> phases_of i (log g) = [];
+  l_gid : forall x, x < ntasks g -> gid g x < ninc g;
+  l_inj : forall x y, x < ntasks g -> y < ntasks g -> gid g x = gid g y -> x = y;
+  l_alt : forall i, exists m, phases_of i (log g) = rev (alt m)
+}.
 
-Lemma LogInv_ext g g' : ntasks g' = ntasks g -> (forall x, lview g' x = lview g x) -> LogInv g -> LogInv g'.
-Proof. intros En E [H1 H2]. split; intros x; rewrite E; [apply H1 | rewrite En; apply H2]. Qed.
+(* g' differs from g in nothing the log invariant looks at *)
+Definition lsame (g g' : G) : Prop :=
+  ntasks g' = ntasks g /\ ninc g' = ninc g /\ (forall x, gid g' x = gid g x) /\
+  (forall x, ph (tasks g' x) = ph (tasks g x) /\
+             sst_beq (st (tw_of g' x)) st_active = sst_beq (st (tw_of g x)) st_active) /\
+  (forall i, phases_of i (log g') = phases_of i (log g)).
 
-Lemma LogInv_upd1 g g' t :
-  ntasks g' = ntasks g -> t < ntasks g -> (forall x, x <> t -> lview g' x = lview g x) ->
-  log_ok (lview g' t) -> LogInv g -> LogInv g'.
+Lemma LogInv_same g g' : lsame g g' -> LogInv g -> LogInv g'.
 Proof.
-  intros En Ht E Hok [H1 H2]. split; intros x.
-  - destruct (Nat.eq_dec x t) as [->|Hne]; [exact Hok | rewrite E by assumption; apply H1].
-  - rewrite En. intros Hx. rewrite E by lia. now apply H2.
+  intros (En & Ei & Eg & Ep & El) [H1 H2 H3 H4 H5]. constructor.
+  - intros x Hx. rewrite En in Hx. specialize (H1 x Hx). unfold lview in *.
+    destruct (Ep x) as [-> ->]. rewrite Eg, El. exact H1.
+  - intros i Hi. rewrite El. apply H2. lia.
+  - intros x Hx. rewrite Eg, Ei. apply H3. lia.
+  - intros x y Hx Hy. rewrite !Eg. apply H4; lia.
+  - intros i. rewrite El. apply H5.
 Qed.
+
+Lemma lsame_refl g : lsame g g.
+Proof. repeat split. Qed.
+Lemma lsame_trans g1 g2 g3 : lsame g1 g2 -> lsame g2 g3 -> lsame g1 g3.
+Proof.
+  intros (A1 & A2 & A3 & A4 & A5) (B1 & B2 & B3 & B4 & B5).
+  split; [congruence|]. split; [congruence|]. split; [intros x; rewrite B3; apply A3|].
+  split; [intros x; destruct (B4 x) as [-> ->]; apply A4 | intros i; rewrite B5; apply A5].
+Qed.
+Lemma lsame_add_log g g1 e : (forall i, pev_of i e = []) -> lsame g g1 -> lsame g (add_log g1 e).
+Proof.
+  intros He (A1 & A2 & A3 & A4 & A5).
+  split; [exact A1|]. split; [exact A2|]. split; [exact A3|]. split; [exact A4|].
+  intros i. unfold phases_of. cbn. rewrite He. apply A5.
+Qed.
+Lemma lsame_set_task g g1 t k :
+  ph k = ph (tasks g1 t) -> sst_beq (st (tw k)) st_active = sst_beq (st (tw_of g1 t)) st_active ->
+  lsame g g1 -> lsame g (set_task g1 t k).
+Proof.
+  intros E1 E2 (A1 & A2 & A3 & A4 & A5).
+  split; [exact A1|]. split; [exact A2|]. split; [exact A3|]. split; [|exact A5].
+  intros x. unfold tw_of in *. unfold set_task; cbn. unfold upd.
+  destruct (Nat.eqb x t) eqn:E; [apply Nat.eqb_eq in E; subst; rewrite E1, E2|]; apply A4.
+Qed.
+Lemma lsame_set_todo g g1 t b : lsame g g1 -> lsame g (set_todo g1 t b).
+Proof. intros H. unfold set_todo. apply lsame_set_task; auto. Qed.
+Lemma lsame_set_reg g g1 t r : lsame g g1 -> lsame g (set_reg g1 t r).
+Proof. intros H. unfold set_reg. apply lsame_set_task; auto. Qed.
+Lemma lsame_set_word g g1 t w' :
+  sst_beq (st w') st_active = sst_beq (st (tw_of g1 t)) st_active -> lsame g g1 -> lsame g (set_word g1 t w').
+Proof. intros E H. unfold set_word. apply lsame_set_task; auto. Qed.
+Lemma lsame_cheap g g1 g2 :
+  ntasks g2 = ntasks g1 -> ninc g2 = ninc g1 -> gid g2 = gid g1 -> tasks g2 = tasks g1 -> log g2 = log g1 ->
+  lsame g g1 -> lsame g g2.
+Proof.
+  intros E1 E2 E3 E4 E5 H. eapply lsame_trans; [exact H|].
+  unfold lsame, tw_of. rewrite E1, E2, E3, E4, E5. repeat split.
+Qed.
+Lemma lsame_rc_dec g g1 t : lsame g g1 -> lsame g (rc_dec g1 t).
+Proof.
+  intros H. destruct (rc_dec_view g1 t) as (E1 & E2 & _ & _ & E5 & E6 & E7 & _).
+  eapply lsame_cheap; eauto.
+Qed.
+Lemma lsame_direct g g2 :
+  ntasks g2 = ntasks g -> ninc g2 = ninc g -> gid g2 = gid g -> tasks g2 = tasks g ->
+  (forall i, phases_of i (log g2) = phases_of i (log g)) -> lsame g g2.
+Proof. intros E1 E2 E3 E4 E5. unfold lsame, tw_of. rewrite E1, E2, E3, E4. repeat split. exact E5. Qed.
+Ltac lsm := repeat first
+  [ apply lsame_refl | assumption
+  | apply lsame_add_log; [intros; reflexivity|]
+  | apply lsame_set_todo | apply lsame_set_reg | apply lsame_rc_dec
+  | (apply lsame_direct; [reflexivity | reflexivity | reflexivity | reflexivity | intros; reflexivity]) ].
 
 Lemma even_double k : Nat.even (2 * k) = true.
 Proof. induction k; [reflexivity|]. replace (2 * S k) with (S (S (2 * k))) by lia. exact IHk. Qed.
@@ -841,62 +951,71 @@ Proof.
   rewrite (alt_S (S (2 * k'))), rev_app_distr, alt_item_odd. reflexivity.
 Qed.
 
-Lemma lview_add_log g e x : pev_of x e = [] -> lview (add_log g e) x = lview g x.
-Proof. intros H. unfold lview, phases_of; cbn. rewrite H. reflexivity. Qed.
-Lemma lview_set_task_keep g t k' x :
-  ph k' = ph (tasks g t) -> sst_beq (st (tw k')) st_active = sst_beq (st (tw_of g t)) st_active ->
-  lview (set_task g t k') x = lview g x.
+(* one phase event p of the incarnation bound to t is logged; t's counters change *)
+Lemma LogInv_upd1 g g' t p :
+  ntasks g' = ntasks g -> ninc g' = ninc g -> (forall x, gid g' x = gid g x) -> t < ntasks g ->
+  (forall x, x <> t -> ph (tasks g' x) = ph (tasks g x) /\
+             sst_beq (st (tw_of g' x)) st_active = sst_beq (st (tw_of g x)) st_active) ->
+  (forall i, phases_of i (log g') = (if Nat.eqb (gid g t) i then [p] else []) ++ phases_of i (log g)) ->
+  log_ok (p :: phases_of (gid g t) (log g), ph (tasks g' t), sst_beq (st (tw_of g' t)) st_active) ->
+  LogInv g -> LogInv g'.
 Proof.
-  intros H1 H2. unfold lview, tw_of, set_task; cbn. unfold upd.
-  destruct (Nat.eqb x t) eqn:E; [apply Nat.eqb_eq in E; subst; rewrite H1; unfold tw_of in H2; rewrite H2|]; reflexivity.
-Qed.
-Lemma lview_set_todo g t b x : lview (set_todo g t b) x = lview g x.
-Proof. unfold set_todo. apply lview_set_task_keep; reflexivity. Qed.
-Lemma lview_set_reg g t r x : lview (set_reg g t r) x = lview g x.
-Proof. unfold set_reg. apply lview_set_task_keep; reflexivity. Qed.
-Lemma lview_set_word g t w' x :
-  sst_beq (st w') st_active = sst_beq (st (tw_of g t)) st_active -> lview (set_word g t w') x = lview g x.
-Proof. intros H. unfold set_word. apply lview_set_task_keep; [reflexivity | exact H]. Qed.
-Lemma lview_stage g b x : lview (stage g b) x = lview g x.
-Proof. reflexivity. Qed.
-Lemma lview_set_staged g b x : lview (set_staged g b) x = lview g x.
-Proof. reflexivity. Qed.
-Lemma lview_set_pend g b x : lview (set_pend g b) x = lview g x.
-Proof. reflexivity. Qed.
-Lemma lview_push g t x : lview (push g t) x = lview g x.
-Proof. reflexivity. Qed.
-
-Lemma LogInv_new g b : LogInv g -> LogInv (new_task g b).
-Proof.
-  intros [H1 H2].
-  assert (E : forall x, x <> ntasks g -> lview (new_task g b) x = lview g x).
-  { intros x Hne. unfold lview, tw_of, new_task. cbn [log tasks]. rewrite upd_other by assumption. reflexivity. }
-  assert (En : lview (new_task g b) (ntasks g) = ([], 0, false)).
-  { specialize (H2 (ntasks g) (le_n _)). unfold lview, tw_of, new_task in *. cbn [log tasks]. rewrite upd_same.
-    cbn. inversion H2 as [[Hp Hk Ha]]. unfold phases_of in *. cbn. rewrite Hp. reflexivity. }
-  split; intros x.
-  - destruct (Nat.eq_dec x (ntasks g)) as [->|Hne]; [rewrite En; cbn; split; [reflexivity|discriminate]|].
-    rewrite E by assumption. apply H1.
-  - cbn [ntasks new_task]. intros Hx. rewrite E by lia. apply H2. lia.
+  intros En Ei Eg Ht Eo El Hok [H1 H2 H3 H4 H5]. constructor.
+  - intros x Hx. rewrite En in Hx. unfold lview. rewrite Eg, El.
+    destruct (Nat.eq_dec x t) as [->|Hne].
+    + rewrite Nat.eqb_refl. exact Hok.
+    + assert (Hg : Nat.eqb (gid g t) (gid g x) = false).
+      { apply Nat.eqb_neq. intros E. apply Hne. symmetry. now apply H4. }
+      rewrite Hg. destruct (Eo x Hne) as [-> ->]. apply (H1 x Hx).
+  - intros i Hi. rewrite El. rewrite Ei in Hi.
+    assert (Hg : Nat.eqb (gid g t) i = false) by (apply Nat.eqb_neq; specialize (H3 t Ht); lia).
+    rewrite Hg. now apply H2.
+  - intros x Hx. rewrite Eg, Ei. apply H3. lia.
+  - intros x y Hx Hy. rewrite !Eg. apply H4; lia.
+  - intros i. rewrite El. destruct (Nat.eqb (gid g t) i) eqn:E; [|apply H5].
+    apply Nat.eqb_eq in E. subst i. cbn [app]. unfold log_ok in Hok. destruct Hok as [-> _]. eexists. reflexivity.
 Qed.
 
-Lemma sub_step_lview g s n :
-  sub_ok n (tw_of g) s -> forall x, lview (fst (sub_step g s)) x = lview g x.
+Lemma LogInv_new g b h : LogInv g -> LogInv (new_task g b h).
 Proof.
-  intros Hs x. destruct s as [|u|u|u prev|u]; cbn [sub_step fst].
-  - reflexivity.
-  - destruct (reg (tasks g u)); cbn [fst]; rewrite lview_add_log by reflexivity; [|reflexivity].
-    apply lview_set_task_keep; reflexivity.
-  - destruct (u <? ntasks g); [|reflexivity]. destruct (st (tw_of g u)); reflexivity.
+  intros [H1 H2 H3 H4 H5].
+  assert (Hlog : forall i, phases_of i (log (new_task g b h)) = phases_of i (log g)) by reflexivity.
+  assert (Hslot : True /\
+                  forall y, y < ntasks (new_task g b h) -> y <> new_slot g h -> y < ntasks g).
+  { unfold new_slot, new_task. cbn. destruct (nth_error (heap g) h) eqn:E; split; intros; auto; lia. }
+  constructor.
+  - intros y Hy. unfold lview. destruct (Nat.eq_dec y (new_slot g h)) as [->|Hne].
+    + unfold new_task, tw_of; cbn. rewrite !upd_same. cbn.
+      change (phases_of (ninc g) (log g)) with (phases_of (ninc g) (log g)).
+      unfold phases_of in *. cbn. rewrite (H2 (ninc g) (le_n _)). split; [reflexivity | discriminate].
+    + destruct Hslot as [_ Hs]. specialize (Hs y Hy Hne). specialize (H1 y Hs). unfold lview in H1.
+      unfold new_task, tw_of in *; cbn. rewrite !upd_other by assumption. exact H1.
+  - intros i Hi. cbn in Hi. rewrite Hlog. apply H2. lia.
+  - intros y Hy. cbn [gid ninc new_task]. destruct (Nat.eq_dec y (new_slot g h)) as [->|Hne].
+    + rewrite upd_same. lia.
+    + rewrite upd_other by assumption. destruct Hslot as [_ Hs]. specialize (H3 y (Hs y Hy Hne)). lia.
+  - intros y z Hy Hz. cbn [gid new_task]. destruct Hslot as [_ Hs].
+    destruct (Nat.eq_dec y (new_slot g h)) as [->|Hny], (Nat.eq_dec z (new_slot g h)) as [->|Hnz];
+      rewrite ?upd_same, ?upd_other by assumption; auto.
+    all: intros E.
+    all: try (specialize (H3 z (Hs z Hz Hnz)); lia).
+    all: try (specialize (H3 y (Hs y Hy Hny)); lia).
+  - intros i. rewrite Hlog. apply H5.
+Qed.
+
+Lemma sub_step_lsame g s n : sub_ok n (tw_of g) s -> lsame g (fst (sub_step g s)).
+Proof.
+  intros Hs. destruct s as [|u|u|u prev|u]; cbn [sub_step fst].
+  - lsm.
+  - destruct (reg (tasks g u)); cbn [fst]; lsm. apply lsame_set_task; lsm; reflexivity.
+  - destruct (u <? ntasks g); [|lsm]. destruct (st (tw_of g u)); cbn [fst]; lsm.
   - cbn in Hs. destruct Hs as [_ Hp].
-    destruct (word_eqb (tw_of g u) prev) eqn:Ew; [|reflexivity]. apply word_eqb_true in Ew.
-    assert (E : lview (add_log (set_word g u (w_pending prev)) (EvWord u SiteSet prev (w_pending prev))) x = lview g x).
-    { rewrite lview_add_log by reflexivity. apply lview_set_word. rewrite Ew. cbn.
-      destruct Hp as [-> | ->]; reflexivity. }
+    destruct (word_eqb (tw_of g u) prev) eqn:Ew; [|lsm]. apply word_eqb_true in Ew.
+    assert (E : lsame g (add_log (set_word g u (w_pending prev)) (EvWord (gid g u) SiteSet prev (w_pending prev)))).
+    { lsm. apply lsame_set_word; lsm. rewrite Ew. cbn. destruct Hp as [-> | ->]; reflexivity. }
     destruct (sst_beq (st prev) st_suspended); cbn [fst]; [|exact E].
-    destruct (match wake (tasks g u) with Some p => negb (N.eqb (p + 1) (tag prev)) | None => true end);
-      [rewrite lview_add_log by reflexivity|]; exact E.
-  - reflexivity.
+    destruct (match wake (tasks g u) with Some p => negb (N.eqb (p + 1) (tag prev)) | None => true end); lsm.
+  - unfold push. lsm.
 Qed.
 
 Lemma sub_step_ntasks g s : ntasks (fst (sub_step g s)) = ntasks g.
@@ -909,103 +1028,82 @@ Proof.
     destruct (match wake (tasks g u) with Some p => negb (N.eqb (p + 1) (tag prev)) | None => true end); reflexivity.
 Qed.
 
-Lemma LogInv_spawn g b (now : bool) : LogInv g -> LogInv (if now then new_task g b else stage g b).
-Proof. intros H. destruct now; [now apply LogInv_new | exact H]. Qed.
+Lemma LogInv_spawn g g1 b (now : bool) h :
+  lsame g g1 -> LogInv g -> LogInv (if now then new_task g1 b h else stage g1 b).
+Proof.
+  intros Hs H. apply (LogInv_same _ _ Hs) in H. destruct now; [now apply LogInv_new|].
+  eapply LogInv_same; [|exact H]. unfold stage. lsm.
+Qed.
 
 Theorem step_LogInv o a g ls :
   SInv g ls -> LogInv g -> LogInv (fst (tstep o a g (ls a))).
 Proof.
   intros HI HL. assert (Hpc := i_pc _ _ _ _ HI a).
-  destruct (ls a) as [|t|t w0|t orig s|t orig ret|t orig ret cur|t|t prev|t|acts s] eqn:Ha; cbn [tstep].
+  destruct (ls a) as [|t|t w0|t orig s|t orig ret|t orig ret cur|t|t prev|t|t|acts s] eqn:Ha; cbn [tstep].
   - destruct (ob o).
-    + destruct (nth_error (pend g) (oi o)); cbn [fst]; exact HL.
-    + destruct (nth_error (staged g) (oi o)); cbn [fst]; [|exact HL]. apply LogInv_new. exact HL.
+    + destruct (nth_error (pend g) (oi o)); cbn [fst]; [|exact HL]. eapply LogInv_same; [|exact HL]. lsm.
+    + destruct (nth_error (staged g) (oi o)); cbn [fst].
+      * apply LogInv_new. eapply LogInv_same; [|exact HL]. lsm.
+      * destruct (term g); cbn [fst]; [exact HL|]. eapply LogInv_same; [|exact HL]. lsm.
   - exact HL.
   - destruct Hpc as [(Ht & Hw & Hp) _]. subst w0. rewrite Hp, word_eqb_refl. cbn [fst].
-    apply LogInv_upd1 with (g := g) (t := t); [reflexivity | exact Ht | | | exact HL].
-    + intros x Hx. assert (Hx' : Nat.eqb t x = false) by (apply Nat.eqb_neq; congruence).
-      rewrite !lview_add_log by (cbn; rewrite ?Hx'; reflexivity).
-      unfold lview, tw_of, set_task; cbn. rewrite upd_other by assumption. reflexivity.
-    + destruct HL as [H1 _]. specialize (H1 t). unfold lview in H1. rewrite Hp in H1.
+    set (k := tasks g t).
+    apply LogInv_upd1 with (g := g) (t := t) (p := PEnter (ph k)); try assumption.
+    all: try (destruct (sref g t); reflexivity).
+    all: try (intros x; destruct (sref g t); reflexivity).
+    all: try (intros x Hx; destruct (sref g t); unfold tw_of; cbn; rewrite upd_other by assumption; auto; fail).
+    + destruct HL as [H1 _ _ _ _]. specialize (H1 t Ht). unfold lview in H1. rewrite Hp in H1.
       change (sst_beq st_pending st_active) with false in H1.
       apply log_ok_enter in H1.
-      unfold lview, tw_of, phases_of in *. cbn [log add_log set_task tasks flat_map pev_of].
-      rewrite upd_same, Nat.eqb_refl. cbn [tw ph st app]. exact H1.
+      destruct (sref g t); unfold tw_of; cbn; rewrite !upd_same; cbn; exact H1.
   - destruct s as [|u|u|u prev|u].
     2-5: match goal with |- context [sub_step ?gg ?s] =>
-           assert (E := sub_step_lview gg s (ntasks gg)); assert (En := sub_step_ntasks gg s);
+           assert (E := sub_step_lsame gg s (ntasks gg));
            destruct (sub_step gg s) as [g' s']; cbn [fst] in *;
-           apply (LogInv_ext gg g' En); [apply E; destruct Hpc as [_ Hs]; exact Hs | exact HL] end.
-    unfold run_act. destruct (todo (tasks g t)) as [[|ac r]|u prev]; cbn [fst]; [exact HL| |].
-    + assert (HL1 : LogInv (set_todo g t (UserBody r))).
-      { apply LogInv_ext with (g := g); [reflexivity | intros x; apply lview_set_todo | exact HL]. }
-      destruct ac as [| | | |b now|u]; cbn [fst]; try exact HL1.
-      * apply LogInv_ext with (g := set_todo g t (UserBody r)); [reflexivity | intros x; apply lview_set_reg | exact HL1].
-      * now apply LogInv_spawn.
+           eapply LogInv_same; [apply E; destruct Hpc as [_ Hs]; exact Hs | exact HL] end.
+    unfold run_act. destruct (todo (tasks g t)) as [[|ac r]|u prev|u]; cbn [fst]; [exact HL| | |].
+    + assert (HL1 : lsame g (set_todo g t (UserBody r))) by lsm.
+      destruct ac as [| | | |b now|u]; cbn [fst].
+      1-3: eapply LogInv_same; [|exact HL]; unfold self_ref, rc_inc; lsm.
+      * eapply LogInv_same; [|exact HL]. lsm.
+      * apply LogInv_spawn with (g := g); [exact HL1 | exact HL].
+      * eapply LogInv_same; [|exact HL]. lsm.
     + destruct (sst_beq (st (tw_of g u)) (st prev) && negb (word_eqb (tw_of g u) prev)); cbn [fst];
-        (apply LogInv_ext with (g := g); [reflexivity | | exact HL]); intros x; rewrite ?lview_add_log by reflexivity;
-        apply lview_set_todo.
+        (eapply LogInv_same; [|exact HL]); lsm.
+    + eapply LogInv_same; [|exact HL]. lsm.
   - exact HL.
   - destruct Hpc as [(Ht & Hw & Hact & Hr & Hcur) _]. subst cur. subst orig.
-    rewrite word_eqb_refl. cbn [fst].
-    apply LogInv_upd1 with (g := g) (t := t); [reflexivity | exact Ht | | | exact HL].
-    + intros x Hx. assert (Hx' : Nat.eqb t x = false) by (apply Nat.eqb_neq; congruence).
-      rewrite !lview_add_log by (cbn; rewrite ?Hx'; reflexivity).
-      unfold lview, tw_of, set_word, set_task; cbn. rewrite upd_other by assumption. reflexivity.
-    + destruct HL as [H1 _]. specialize (H1 t). unfold lview in H1. rewrite Hact in H1.
-      change (sst_beq st_active st_active) with true in H1.
-      apply log_ok_exit in H1.
-      assert (Hna : sst_beq ret st_active = false).
-      { destruct Hr as [->|[->|[->| ->]]]; reflexivity. }
-      unfold lview, tw_of, phases_of in *. cbn [log add_log set_word set_task tasks flat_map pev_of].
-      rewrite upd_same, Nat.eqb_refl. cbn [tw ph st app]. rewrite Hna. exact H1.
+    rewrite word_eqb_refl. cbn [fst]. cbv zeta.
+    assert (Hna : sst_beq ret st_active = false).
+    { destruct Hr as [->|[->|[->| ->]]]; reflexivity. }
+    destruct HL as [H1 H2 H3 H4 H5]. assert (H1t := H1 t Ht). unfold lview in H1t. rewrite Hact in H1t.
+    change (sst_beq st_active st_active) with true in H1t.
+    apply log_ok_exit in H1t.
+    destruct (sst_beq ret st_terminated);
+    (apply LogInv_upd1 with (g := g) (t := t) (p := PExit (pred (ph (tasks g t))));
+      try reflexivity; try assumption; try (intros; reflexivity); try (constructor; assumption);
+      try (intros x Hx; unfold tw_of; cbn; rewrite upd_other by assumption; auto; fail);
+      unfold tw_of; cbn; rewrite !upd_same; cbn; rewrite Hna; exact H1t).
   - exact HL.
   - destruct Hpc as [(Ht & Hb) _].
     destruct (word_eqb (tw_of g t) prev) eqn:Ew; cbn [fst]; [|exact HL].
-    apply LogInv_ext with (g := g); [reflexivity | | exact HL]. intros x. rewrite lview_add_log by reflexivity.
-    apply lview_set_word. cbn. destruct Hb as [-> | ->]; reflexivity.
-  - exact HL.
+    eapply LogInv_same; [|exact HL]. lsm. apply lsame_set_word; lsm.
+    cbn. destruct Hb as [-> | ->]; reflexivity.
+  - eapply LogInv_same; [|exact HL]. unfold push. lsm.
+  - eapply LogInv_same; [|exact HL]. lsm.
   - destruct s as [|u|u|u prev|u].
     2-5: match goal with |- context [sub_step ?gg ?s] =>
-           assert (E := sub_step_lview gg s (ntasks gg)); assert (En := sub_step_ntasks gg s);
+           assert (E := sub_step_lsame gg s (ntasks gg));
            destruct (sub_step gg s) as [g' s']; cbn [fst] in *;
-           apply (LogInv_ext gg g' En); [apply E; destruct Hpc as [_ Hs]; exact Hs | exact HL] end.
+           eapply LogInv_same; [apply E; destruct Hpc as [_ Hs]; exact Hs | exact HL] end.
     destruct acts as [|[| | | |b now|u] r]; cbn [fst]; try exact HL.
-    now apply LogInv_spawn.
+    apply LogInv_spawn with (g := g); [lsm | exact HL].
 Qed.
 
 Lemma LogInv_init : LogInv init_g.
-Proof. split; intros x; cbn; [split; [reflexivity|discriminate] | reflexivity]. Qed.
-
-Definition CInv (g : G) (ls : nat -> pc) : Prop := SInv g ls /\ LogInv g.
-
-Theorem CInv_reach sched ext : CInv (fst (sched_run sched ext)) (snd (sched_run sched ext)).
 Proof.
-  unfold sched_run. apply (run_inv _ _ _ tstep CInv).
-  - intros o t g ls [H1 H2]. split; [now apply step_SInv | now apply step_LogInv].
-  - split; [apply SInv_init | apply LogInv_init].
-Qed.
-
-Lemma pev_of_rev t e : rev (pev_of t e) = pev_of t e.
-Proof. destruct e; cbn; try reflexivity; destruct (Nat.eqb _ _); reflexivity. Qed.
-Lemma phases_of_rev t l : phases_of t (rev l) = rev (phases_of t l).
-Proof.
-  unfold phases_of. induction l as [|e l IH]; [reflexivity|].
-  cbn [rev flat_map]. rewrite flat_map_app, IH. cbn [flat_map]. rewrite app_nil_r, rev_app_distr, pev_of_rev. reflexivity.
-Qed.
-Lemma alt_length m : length (alt m) = m.
-Proof. unfold alt. now rewrite map_length, seq_length. Qed.
-
-(* the phase events of every task, in chronological order, are
-   Enter 0, Exit 0, Enter 1, Exit 1, ... : at most one Enter of phase 0, and phase k+1 is entered
-   only after phase k returned *)
-Theorem sched_entered_once sched ext t :
-  let g := fst (sched_run sched ext) in
-  phases_of t (rev (log g)) = alt (length (phases_of t (log g))).
-Proof.
-  intros g. destruct (CInv_reach sched ext) as [_ [H _]]. fold g in H. specialize (H t).
-  unfold lview, log_ok in H. destruct H as [H _].
-  rewrite phases_of_rev, H, rev_involutive, rev_length, alt_length. reflexivity.
+  constructor; cbn; try (intros; lia); try reflexivity.
+  intros i. exists 0. reflexivity.
 Qed.
 
 (* ------------------------------------------------------------------ C01: nothing is dropped *)
@@ -1022,14 +1120,14 @@ Proof.
   - cbn. discriminate.
 Qed.
 
-Definition o_pop0 : oracle := {| oi := 0; ob := true |}.
-Definition o_conv0 : oracle := {| oi := 0; ob := false |}.
+Definition o_pop0 : oracle := {| oi := 0; ob := true; oh := 0 |}.
+Definition o_conv0 : oracle := {| oi := 0; ob := false; oh := 0 |}.
 
 Lemma stuck_pcs g ls : stuck (g, ls) -> forall a, ls a = WTop \/ ls a = XRun [] SNone.
 Proof.
   intros Hst a. specialize (Hst a o_pop0). cbn [fst snd] in Hst.
-  destruct (ls a) as [|t|t w0|t orig s|t orig ret|t orig ret cur|t|t prev|t|acts s] eqn:Ha; auto;
-    [exfalso|exfalso|exfalso|exfalso|exfalso|exfalso|exfalso|exfalso|
+  destruct (ls a) as [|t|t w0|t orig s|t orig ret|t orig ret cur|t|t prev|t|t|acts s] eqn:Ha; auto;
+    [exfalso|exfalso|exfalso|exfalso|exfalso|exfalso|exfalso|exfalso|exfalso|
      destruct acts as [|ac r]; [destruct s; [auto|exfalso..]|exfalso]]; cbn [tstep] in Hst.
   - inversion Hst.
   - destruct (st w0); try (inversion Hst; fail). destruct (word_eqb (tw_of g t) w0); inversion Hst.
@@ -1037,13 +1135,13 @@ Proof.
     2-5: match type of Hst with context [sub_step ?gg ?s] =>
            assert (Hp := sub_step_progress gg s ltac:(discriminate));
            destruct (sub_step gg s) as [g' s']; cbn in Hp; inversion Hst; congruence end.
-    unfold run_act in Hst. destruct (todo (tasks g t)) as [[|ac r]|u prev] eqn:Et; [inversion Hst| |].
+    unfold run_act in Hst. destruct (todo (tasks g t)) as [[|ac r]|u prev|u] eqn:Et; [inversion Hst| | |].
     + destruct ac as [| | | |b now|u]; try (inversion Hst; fail).
       * inversion Hst as [[Hg]]. apply (f_equal (fun gg => todo (tasks gg t))) in Hg.
         unfold set_reg, set_todo, set_task in Hg. cbn in Hg. rewrite !upd_same in Hg. cbn in Hg.
         rewrite Et in Hg. inversion Hg as [Hr]. symmetry in Hr. eapply list_neq_cons; eauto.
       * inversion Hst as [[Hg]]. destruct now.
-        -- apply (f_equal ntasks) in Hg. cbn in Hg. lia.
+        -- apply (f_equal ninc) in Hg. cbn in Hg. lia.
         -- apply (f_equal (fun gg => todo (tasks gg t))) in Hg.
            unfold stage, set_staged, set_todo, set_task in Hg. cbn in Hg. rewrite !upd_same in Hg. cbn in Hg.
            rewrite Et in Hg. inversion Hg as [Hr]. symmetry in Hr. eapply list_neq_cons; eauto.
@@ -1051,11 +1149,16 @@ Proof.
       inversion Hst as [[Hg]]. apply (f_equal (fun gg => todo (tasks gg t))) in Hg.
       unfold add_log, set_todo, set_task in Hg. cbn in Hg. rewrite !upd_same in Hg. cbn in Hg.
       rewrite Et in Hg. discriminate Hg.
+    + inversion Hst as [[Hg]]. apply (f_equal (fun gg => todo (tasks gg t))) in Hg.
+      destruct (rc_dec_view (set_todo g t (UserBody [])) u) as (E & _). rewrite E in Hg.
+      unfold set_todo, set_task in Hg. cbn in Hg. rewrite !upd_same in Hg. cbn in Hg.
+      rewrite Et in Hg. discriminate Hg.
   - inversion Hst.
   - destruct (word_eqb (tw_of g t) orig); [|inversion Hst]. destruct ret; inversion Hst.
   - inversion Hst.
   - destruct (word_eqb (tw_of g t) prev) eqn:Ew; [inversion Hst|].
     inversion Hst as [[Hp]]. apply word_eqb_false in Ew. congruence.
+  - inversion Hst.
   - inversion Hst.
   - match type of Hst with context [sub_step ?gg ?s] =>
       assert (Hp := sub_step_progress gg s ltac:(discriminate));
@@ -1081,19 +1184,20 @@ Qed.
 Definition is_ext (l : pc) : bool := match l with XRun _ _ => true | _ => false end.
 Lemma tstep_role o a g l : is_ext (snd (tstep o a g l)) = is_ext l.
 Proof.
-  destruct l as [|t|t w0|t orig s|t orig ret|t orig ret cur|t|t prev|t|acts s]; cbn [tstep].
-  - destruct (ob o); [destruct (nth_error (pend g) (oi o)) | destruct (nth_error (staged g) (oi o))]; reflexivity.
+  destruct l as [|t|t w0|t orig s|t orig ret|t orig ret cur|t|t prev|t|t|acts s]; cbn [tstep].
+  - destruct (ob o); [destruct (nth_error (pend g) (oi o)) | destruct (nth_error (staged g) (oi o)); [|destruct (term g)]]; reflexivity.
   - reflexivity.
   - destruct (st w0); try reflexivity. destruct (word_eqb (tw_of g t) w0); reflexivity.
   - destruct s.
     2-5: match goal with |- context [sub_step ?gg ?s] => destruct (sub_step gg s); reflexivity end.
-    unfold run_act. destruct (todo (tasks g t)) as [[|ac r]|u prev]; [reflexivity| |].
+    unfold run_act. destruct (todo (tasks g t)) as [[|ac r]|u prev|u]; [reflexivity| | |reflexivity].
     + destruct ac; reflexivity.
     + destruct (sst_beq (st (tw_of g u)) (st prev) && negb (word_eqb (tw_of g u) prev)); reflexivity.
   - reflexivity.
   - destruct (word_eqb (tw_of g t) orig); [|reflexivity]. destruct ret; reflexivity.
   - reflexivity.
   - destruct (word_eqb (tw_of g t) prev); reflexivity.
+  - reflexivity.
   - reflexivity.
   - destruct s.
     2-5: match goal with |- context [sub_step ?gg ?s] => destruct (sub_step gg s); reflexivity end.
@@ -1111,40 +1215,11 @@ Proof.
   - cbn. unfold init_ls. destruct (ext a); reflexivity.
 Qed.
 
-(* a stuck pool with at least one worker has empty queues, and every task ever created is
-   suspended or terminated (staged descriptions included: none is left) *)
-Theorem sched_no_drop sched ext w :
-  ext w = None ->
-  let c := sched_run sched ext in
-  stuck c ->
-  pend (fst c) = [] /\ staged (fst c) = [] /\
-  forall t, t < ntasks (fst c) ->
-    st (tw_of (fst c) t) = st_suspended \/ st (tw_of (fst c) t) = st_terminated.
-Proof.
-  intros Hw c Hst.
-  assert (HI := SInv_reach sched ext). fold c in HI.
-  assert (Hpcs := stuck_pcs (fst c) (snd c)). rewrite <- surjective_pairing in Hpcs. specialize (Hpcs Hst).
-  assert (Hwt : snd c w = WTop).
-  { destruct (Hpcs w) as [H|H]; [exact H|]. assert (R := role_reach sched ext w). fold c in R.
-    rewrite H, Hw in R. discriminate R. }
-  assert (Hp : pend (fst c) = []).
-  { specialize (Hst w o_pop0). rewrite Hwt in Hst. cbn in Hst.
-    destruct (pend (fst c)) as [|t p] eqn:E; [reflexivity|]. cbn in Hst. inversion Hst. }
-  assert (Hs : staged (fst c) = []).
-  { specialize (Hst w o_conv0). rewrite Hwt in Hst. cbn in Hst.
-    destruct (staged (fst c)) as [|b p] eqn:E; [reflexivity|]. cbn in Hst. inversion Hst as [[Hg]].
-    apply (f_equal ntasks) in Hg. cbn in Hg. lia. }
-  repeat split; auto.
-  intros t Ht. destruct (i_dom _ _ _ _ HI t Ht) as [Hl|H]; [|exact H]. exfalso.
-  destruct (i_exist _ _ _ _ HI t Ht Hl) as [H|[a H]].
-  - rewrite Hp in H. exact H.
-  - destruct (Hpcs a) as [E|E]; rewrite E in H; revert H; apply holds_none; try reflexivity; cbn; intros; discriminate.
-Qed.
-
 (* the converse shape, used to exhibit stuck configurations (non-vacuity of the hypotheses) *)
 Lemma stuck_intro g ls :
-  pend g = [] -> staged g = [] -> (forall a, ls a = WTop \/ ls a = XRun [] SNone) -> stuck (g, ls).
+  pend g = [] -> staged g = [] -> term g = [] ->
+  (forall a, ls a = WTop \/ ls a = XRun [] SNone) -> stuck (g, ls).
 Proof.
-  intros Hp Hs Hl a o. cbn [fst snd]. destruct (Hl a) as [-> | ->]; cbn [tstep]; [|reflexivity].
-  rewrite Hp, Hs. destruct (ob o); destruct (oi o); reflexivity.
+  intros Hp Hs Ht Hl a o. cbn [fst snd]. destruct (Hl a) as [-> | ->]; cbn [tstep]; [|reflexivity].
+  rewrite Hp, Hs, Ht. destruct (ob o); destruct (oi o); reflexivity.
 Qed.
